@@ -297,11 +297,17 @@ fn word_hash(w: &str, utf8: bool) -> u64 {
     h.finish()
 }
 
-struct E1Local {
-    words: u64,
-    d8: u64,
-    nonground: u64,
-    outcomes: HashSet<u64>,
+pub struct E1Local {
+    pub words: u64,
+    pub d8: u64,
+    pub nonground: u64,
+    pub outcomes: HashSet<u64>,
+}
+
+impl E1Local {
+    pub fn new() -> E1Local {
+        E1Local { words: 0, d8: 0, nonground: 0, outcomes: HashSet::new() }
+    }
 }
 
 fn ev_hash(ev: &[Op]) -> u64 {
@@ -311,7 +317,7 @@ fn ev_hash(ev: &[Op]) -> u64 {
 }
 
 /// Check one word (with the probe suffix) in one parser mode.
-fn c03_word(c: &Collector, w: &str, utf8: bool, l: &mut E1Local, engine: &str) {
+pub fn c03_word(c: &Collector, w: &str, utf8: bool, l: &mut E1Local, engine: &str) {
     let full = format!("{}{}", w, PROBE);
     let (exp, _g, d8) = recognise(&full, utf8);
     let (_, ground_after_word, _) = recognise(w, utf8);
@@ -664,7 +670,7 @@ pub fn c19(c: &Collector, g: &mut Guard) {
 }
 
 #[allow(clippy::too_many_arguments)]
-fn c19_verdict(
+pub fn c19_verdict(
     c: &Collector,
     base_script: &[Op],
     op: Op,
@@ -778,16 +784,22 @@ fn events_match(exp: &[Op], obs: &[Op]) -> bool {
     exp == obs || strip_bom(exp.to_vec()) == obs
 }
 
-struct E3Local {
-    n: u64,
-    split_multibyte: u64,
-    invalid: u64,
-    outcomes: HashSet<u64>,
+pub struct E3Local {
+    pub n: u64,
+    pub split_multibyte: u64,
+    pub invalid: u64,
+    pub outcomes: HashSet<u64>,
+}
+
+impl E3Local {
+    pub fn new() -> E3Local {
+        E3Local { n: 0, split_multibyte: 0, invalid: 0, outcomes: HashSet::new() }
+    }
 }
 
 /// One byte string under one chunking: after EVERY chunk the events so far must equal the
 /// reference decoding of the prefix minus its incomplete tail.
-fn c11_case(c: &Collector, chunks: &[Vec<u8>], utf8: bool, l: &mut E3Local, engine: &str, prop: &str) {
+pub fn c11_case(c: &Collector, chunks: &[Vec<u8>], utf8: bool, l: &mut E3Local, engine: &str, prop: &str) {
     l.n += 1;
     let all: Vec<u8> = chunks.concat();
     if utf8 && std::str::from_utf8(&all).is_err() {
@@ -1146,7 +1158,7 @@ fn c02_chars(c: &Collector, start: &Screen, script: &[Op], w: &str, utf8: bool, 
 }
 
 #[allow(clippy::too_many_arguments)]
-fn c02_verdict(c: &Collector, start: &Screen, script: &[Op], op: Op, base: &Option<Snap>, single: &Result<Screen, String>, r: Result<Screen, String>, kind: &str) {
+pub fn c02_verdict(c: &Collector, start: &Screen, script: &[Op], op: Op, base: &Option<Snap>, single: &Result<Screen, String>, r: Result<Screen, String>, kind: &str) {
     let mk = |class: String, detail: String| Violation {
         property: "C02".into(),
         engine: format!("E1E3.chunking.{}", kind),
